@@ -220,6 +220,34 @@ func runCheck(o checkOpts) int {
 	for range keys {
 		<-done
 	}
+	// second chance for undecided obligations: one at a time, with a longer
+	// timeout, when the machine is no longer saturated by the parallel phase
+	retried := 0
+	for _, rep := range reports {
+		if rep == nil || rep.Fx == nil || rep.Rejected != "" {
+			continue
+		}
+		for i, r := range rep.Results {
+			isKnown := false
+			for _, kf := range known.Findings {
+				if r != nil && globMatch(kf.Obligation, r.Ob.Name) {
+					isKnown = true
+				}
+			}
+			if r != nil && r.Status == "undecided" && retried < 12 && !isKnown {
+				retried++
+				dir := filepath.Join(workRoot, sanitize(rep.Key))
+				nr := solve(dir, 90000+i, rep.Fx, r.Ob, rep.Fx.modelProbes(), timeoutMs*4, rep.Fx.u.strings)
+				if nr.Status == "discharged" || nr.Status == "refuted" {
+					nr.Ms += r.Ms
+					rep.Results[i] = nr
+					if nr.Status == "discharged" {
+						os.Remove(nr.Query)
+					}
+				}
+			}
+		}
+	}
 	// bounded stand-ins and extra checks registered for this property
 	extra := runExtras(eng, o)
 
